@@ -6,6 +6,7 @@ import (
 	"errors"
 	"fmt"
 	"regexp"
+	"runtime/debug"
 	"strings"
 	"sync"
 
@@ -169,6 +170,14 @@ func c18BoardView(r *kit.Run, rec *world.Recording, tier string, v int, senderKe
 			}
 			re := types.ReDKG{DKGID: id, Threshold: w.T, Participants: parts, Messages: replayedWithPatches(w, id)}
 			reinits = append(reinits, mutant{Label: fmt.Sprintf("reinit/round-id-%q", id), Msg: storage.Message{DkgRoundID: id, Event: string(types.ReinitDKG), Data: world.MustJSON(re), SenderAddr: "anyone"}})
+			if len(id) == 64 {
+				// ... and one whose replay opens no round at all (no messages), or stops after the proposal
+				for cut, name := range []string{"no-messages", "proposal-only"} {
+					id2 := strings.Repeat(fmt.Sprint(7+cut), 64)
+					re2 := types.ReDKG{DKGID: id2, Threshold: w.T, Participants: parts, Messages: replayedWithPatches(w, id2)[:cut]}
+					reinits = append(reinits, mutant{Label: "reinit/" + name, Msg: storage.Message{DkgRoundID: id2, Event: string(types.ReinitDKG), Data: world.MustJSON(re2), SenderAddr: "anyone"}})
+				}
+			}
 		}
 		for _, bs := range bases {
 			if r.TimeUp() {
@@ -182,6 +191,28 @@ func c18BoardView(r *kit.Run, rec *world.Recording, tier string, v int, senderKe
 				trace := map[string]interface{}{"entry": "NodeService.ProcessMessage", "base": bs.String(), "event": "reinit_dkg", "mutation": mu.Label}
 				if pe, ok := err.(*PanicError); ok {
 					r.Violation("C18/panic/board/"+pe.Site, fmt.Sprintf("ProcessMessage panicked (in %s) in state %s on a reinit message with %s: %v", pe.Site, bs, mu.Label, pe.V), trace)
+				} else if err == nil {
+					// an accepted reinit message leaves an operation for the operator: what the machine
+					// answers to it ("processed") goes back through the node's API
+					for _, op := range lab.Node.PendingOps() {
+						if string(op.Type) != string(types.ReinitDKG) {
+							continue
+						}
+						res := *op
+						res.Event = types.OperationProcessed
+						res.ExtraData = []byte("extra")
+						kit.Mark(fmt.Sprintf("NodeService API in %s after %s: processed result of the reinit operation", bs, mu.Label))
+						func() {
+							defer func() {
+								if x := recover(); x != nil {
+									site := PanicSite(debug.Stack())
+									r.Violation("C18/panic/api-after-reinit/"+site, fmt.Sprintf("in %s, after the accepted reinit message (%s), the machine's answer to the reinit operation made the node's API panic (in %s): %v", bs, mu.Label, site, x), trace)
+								}
+							}()
+							_ = lab.Node.SubmitResult(&res)
+						}()
+						*evals++
+					}
 				} else if err != nil {
 					if ch := changedProtected(bs.Snap, after); len(ch) > 0 {
 						r.Violation("C18/rejected-but-changed/board/reinit/"+strings.Join(classOfChanges(ch), "+"), fmt.Sprintf("in %s the rejected reinit message (%s) changed durable state: %v (error: %v)", bs, mu.Label, ch, err), trace)
